@@ -1,6 +1,7 @@
 """K write_step: <DiplomatWrite as fmt::Write>::write_str against the C12 step contract (harness-checked)."""
 import os
 from common import VERIF, read
+from kunit import add_end_covers
 
 NAME = "write_step"
 ENGINE = "kani"
@@ -17,7 +18,7 @@ def _n(tier):
 def splice(sess, tier):
     n = _n(tier)
     t = read(os.path.join(VERIF, "units/harness/write_step.rs")).replace("@N@", str(n)).replace("@UNWIND@", str(n + 2))
-    sess.append(FILE, t)
+    sess.append(FILE, add_end_covers(t))
 
 
 def harnesses(tier):
@@ -29,7 +30,7 @@ def harnesses(tier):
                       "exactly-cap-sized allocation (CBMC pointer checks); foreign grow = nondeterministic documented-invariant model",
         "functions": [(FILE, "impl fmt::Write for DiplomatWrite::write_str")],
         "mode": "bounded", "bound": f"cap <= {n}, chunk length <= {n} bytes (arbitrary bytes, superset of UTF-8); single step",
-        "covers": 3, "timeout": 900,
+        "covers": 4, "timeout": 900,
     }]
 
 
